@@ -110,6 +110,7 @@ func corpusCases() []*c20Case {
 		mk("IOS", "info file null", "", map[string]string{"code/router": "", "code/router.info": "null"}),
 		mk("PAN-OS", "empty <devices> plus raw vsys", "", map[string]string{"code/router": "<config><devices></devices></config>",
 			"code/router.raw": `<config><devices><entry name="x"><vsys><entry name="vsys1"></entry></vsys></entry></devices></config>`}),
+		mk("PAN-OS", "cyclic address-groups", "", map[string]string{"code/router": `<config><devices><entry name="d"><vsys><entry name="vsys1"><rulebase><security><rules><entry name="r1"><action>allow</action><from><member>any</member></from><to><member>any</member></to><source><member>g0</member></source><destination><member>any</member></destination><service><member>any</member></service><application><member>any</member></application></entry></rules></security></rulebase><address-group><entry name="g0"><static><member>g1</member></static></entry><entry name="g1"><static><member>g0</member></static></entry></address-group></entry></vsys></entry></devices></config>`}),
 		mk("NSX", "null in groups", "", map[string]string{"code/router": `{"groups":[null]}`}),
 		mk("NSX", "null in expression", "", map[string]string{"code/router": `{"groups":[{"id":"Netspoc-g1","expression":[null]}]}`}),
 		mk("NSX", "null in rules", "", map[string]string{"code/router": `{"policies":[{"id":"Netspoc-v1","rules":[null]}]}`}),
